@@ -137,7 +137,7 @@ func (ex *Exec) prove(fnName string, st *State, kind, label string, goal *Term, 
 	o := &Obligation{Name: ex.oblName(fnName, kind, label), Func: fnName, Kind: kind, NAssume: len(ex.assumes), PC: st.pc, Goal: goal, Text: text, exec: ex}
 	if pos.IsValid() {
 		p := ex.eng.fset.Position(pos)
-		o.Pos = fmt.Sprintf("%s:%d", strings.TrimPrefix(p.Filename, "/repo/"), p.Line)
+		o.Pos = fmt.Sprintf("%s:%d", strings.TrimPrefix(p.Filename, ex.eng.repo+"/"), p.Line)
 	}
 	ex.obligations = append(ex.obligations, o)
 }
